@@ -12,5 +12,6 @@ INVARIANT BatchSubjects
 INVARIANT BatchObjects
 INVARIANT NonVacuous
 INVARIANT OutcomeWF
+INVARIANT RenamingInvariant
 PROPERTY Monotone
 CHECK_DEADLOCK FALSE
